@@ -49,6 +49,9 @@ ClausesOf ==
    C17 |-> {"C17_Quiet", "C17_GoodbyesBeforeClose", "C17_Idempotent", "C17_NoTimerRaises"},
    C09 |-> {"C09_ProbeSchedule", "C09_ProbeShape", "C09_ConflictDetected", "C09_Rename", "C09_SpuriousFailure", "C09_WrongException",
             "C09_NeverTwice", "C09_NeverAnnounced", "C09_AnnouncedBeforeProbing", "C09_AnnouncementComplete"}]
+\* loop latency the scenarios of this batch inject on purpose (a callback that keeps the loop busy): the announcement and goodbye
+\* sequences may be that many milliseconds late.  Only the C17 scenarios do so.
+Slack == IF "slack" \in DOMAIN D THEN D.slack ELSE 0
 Own(clause) == \/ D.own = "ALL" \/ clause \in {"Trace_Malformed", "C15_NoException"} \/ clause \in ClausesOf[D.own]
 Bad(cond, clause) == cond /\ Own(clause)
 Fail(st, clause) == [st EXCEPT !.err = clause]
@@ -455,7 +458,7 @@ OnSend(st, e) ==
        THEN Fail(st, "C09_AnnouncedBeforeProbing")
   ELSE IF ~e.mc THEN OnUnicast(st, e)
   ELSE IF Bad(FormatBad(e), "C11_MulticastFormat") THEN Fail(st, "C11_MulticastFormat")
-  ELSE LET slot == {x \in st.slots : x.t = e.t /\ ~x.used /\ x.set = Pairs(e.an) /\ e.ar = <<>>} IN
+  ELSE LET slot == {x \in st.slots : x.t <= e.t /\ e.t <= x.t + Slack /\ ~x.used /\ x.set = Pairs(e.an) /\ e.ar = <<>>} IN
        IF slot # {}
        THEN LET x == CHOOSE y \in slot : TRUE IN
             [st EXCEPT !.slots = (@ \ {x}) \cup {[x EXCEPT !.used = TRUE]},
@@ -463,8 +466,8 @@ OnSend(st, e) ==
        ELSE OnMulticastReply(st, e)
 
 (* an announcement / goodbye slot whose instant has passed without its datagram *)
-MissedSlot(st, t) == \E x \in st.slots : ~x.used /\ x.t < t
-MissedKind(st, t) == (CHOOSE x \in st.slots : ~x.used /\ x.t < t).kind
+MissedSlot(st, t) == \E x \in st.slots : ~x.used /\ x.t + Slack < t
+MissedKind(st, t) == (CHOOSE x \in st.slots : ~x.used /\ x.t + Slack < t).kind
 
 AfterClose(st, e) ==
   CASE e.ev \in {"send", "cb", "lcall"} -> IF Bad(TRUE, "C17_Quiet") THEN Fail(st, "C17_Quiet") ELSE st
